@@ -97,6 +97,7 @@ type seqRun struct {
 	madeMap map[string]int
 	opnd    func(Term) bool // the native operand of a From-constructor (a slice or map of opndLen symbolic entries)
 	opndLen int
+	sliceVars map[types.Object]seqSlice // loop-carried slice locals (accumulate-then-assign)
 	why     string
 	panic   string
 }
@@ -538,6 +539,10 @@ func (r *seqRun) sliceAt(t Term, epoch int) (seqSlice, bool) {
 	switch x := t.(type) {
 	case TNil:
 		return seqSlice{}, true
+	case TLoop:
+		if s, ok := r.sliceVars[x.Obj]; ok {
+			return s, true
+		}
 	case TConv:
 		return r.sliceAt(x.X, epoch)
 	case TSel:
@@ -883,6 +888,40 @@ func (r *seqRun) feasible(p *Path, upTo int) (bool, bool) {
 }
 
 func (r *seqRun) loop(l *LoopRec) bool {
+	// loop-carried slice locals start from their value before the loop
+	isFieldSlice := func(o types.Object) bool {
+		sl, ok := o.Type().Underlying().(*types.Slice)
+		return ok && types.Identical(sl.Elem(), r.c.Inv().Field)
+	}
+	for o, t := range l.Init {
+		if isFieldSlice(o) {
+			if r.sliceVars == nil {
+				r.sliceVars = map[types.Object]seqSlice{}
+			}
+			s, ok := r.slice(t)
+			if !ok {
+				return false
+			}
+			r.sliceVars[o] = s
+		}
+	}
+	carry := func(sel *Path) bool {
+		for o := range r.sliceVars {
+			nt, ok := sel.Env[o]
+			if !ok {
+				continue
+			}
+			if lv, same := nt.(TLoop); same && lv.Obj == o && lv.ID == l.ID {
+				continue
+			}
+			s, ok := r.slice(nt)
+			if !ok {
+				return false
+			}
+			r.sliceVars[o] = s
+		}
+		return true
+	}
 	iterate := func() bool {
 		// one iteration: the feasible iteration path in the current state
 		r.snapshot(l.HeadEpoch)
@@ -916,7 +955,7 @@ func (r *seqRun) loop(l *LoopRec) bool {
 			r.fail("loop left by " + sel.End)
 			return false
 		}
-		return r.exec(sel.Steps)
+		return r.exec(sel.Steps) && carry(sel)
 	}
 	if l.Range != nil {
 		// the native operand of a From-constructor, or the receiver's own spine
